@@ -3,6 +3,7 @@
 import glob, json, os
 here = os.path.dirname(os.path.abspath(__file__))
 man = json.load(open(os.path.join(here, "MANIFEST.json")))
+print("### 10.1 Status per property (from MANIFEST.json and the last evidence files)\n")
 print("| property | level claimed | theorems (discharged/obligations) | quick cases | wall s |")
 print("|---|---|---|---|---|")
 for c in man["checks"]:
@@ -14,6 +15,14 @@ for c in man["checks"]:
     else:
         print("| %s | %s | - | - | - |" % (pid, c["level_claimed"]["category"]))
 print()
+print("### 10.2 Defects of recmo/uint found and repaired (known_findings.jsonl; every entry `fixed`, none open)\n")
+print("| id | property | fix commit | site | what failed |")
+print("|---|---|---|---|---|")
+for l in open(os.path.join(here, "known_findings.jsonl")):
+    f = json.loads(l)
+    print("| %s | %s | `%s` | %s | %s |" % (f["id"], f["property"], f["commit"], f["site"], f["what"].replace("|", "/")[:220]))
+print()
+print("### 10.3 Seeded changes (independent sub-agents, given only the property text) and which check catches them\n")
 print("| seeded change | property | what it needs to manifest | caught by | first failing input reported |")
 print("|---|---|---|---|---|")
 for d in sorted(glob.glob(os.path.join(here, "seeded", "*"))):
